@@ -409,12 +409,28 @@ def strategies(ctx):
     want = ["map", "max_by_key", "filter", "map", "iter"]
     SELECTORS = ("iter", "into_iter", "max_by_key", "min_by_key", "max_by", "min_by", "filter", "find", "fold", "reduce", "last", "next", "nth",
                  "first", "position", "rev", "skip", "take", "filter_map", "find_map")
-    if chain[:5] != want and not any(n in SELECTORS for n in chain):
-        # not an iterator-combinator selection at all (e.g. a hand-written loop with an accumulator): deciding "the fullest
-        # target below capacity" for an arbitrary loop is a verification problem, not a shape; the rule says so instead of guessing
+    SIBLINGS = [("max_by_key", "min_by_key", "max_by", "min_by", "last", "next", "find", "reduce"), ("filter", "skip_while", "take_while"),
+                ("iter", "into_iter"), ("map", "filter_map", "flat_map")]
+
+    def sibling_substitution(c):
+        """same pipeline structure as the reference with another adaptor of the same family in some slot (min_by_key for
+        max_by_key, ..): recognisably the reference pipeline, changed — as opposed to a differently structured pipeline"""
+        c = c[:len(want)]
+        if len(c) != len(want) or c == want:
+            return False
+        for a, w in zip(c, want):
+            if a != w and not any(a in fam and w in fam for fam in SIBLINGS):
+                return False
+        return True
+    if chain[:5] != want and not sibling_substitution(chain):
+        # neither the reference pipeline nor the reference pipeline with one adaptor exchanged for a sibling (min_by_key, ..): a
+        # hand-written loop with an accumulator, or a differently structured pipeline (fused filter_map, fold, ..). Deciding "the
+        # fullest target below capacity" for an arbitrary implementation is a verification problem, not a shape; the rule says so
+        # instead of guessing
         ctx.undecided(R, "C18/strategies/fill-chain", pb.loc,
-                      "PlayerFill::select does not compute its result with an iterator-combinator chain over `targets` (result built by %s); "
-                      "the selection rule (fullest target strictly below max_players, last wins on ties) is not decided for this implementation" % (chain or "a loop"))
+                      "PlayerFill::select is not the reference pipeline iter().map(count).filter(<max).max_by_key(count).map(clone) nor that pipeline with "
+                      "an adaptor exchanged (result built by %s); the selection rule (fullest target strictly below max_players, last wins on ties) is "
+                      "not decided for this implementation" % (chain or "a loop"))
         return
     ctx.check(chain[:5] == want, R, "C18/strategies/fill-chain", pb.loc,
               reason="PlayerFill is computed by %s; expected targets.iter().map(count).filter(below capacity).max_by_key(count).map(clone)" % chain,
